@@ -152,9 +152,12 @@ inductive FoldSteps (sem : Sem V) (d : Nat) (outer : Env V) (args : List (Option
       (rest : FoldSteps sem d outer args (Graph.mk ins (inits ++ [(o, c)]) (pre ++ post) outs) g'') :
       FoldSteps sem d outer args (Graph.mk ins inits (pre ++ n :: post) outs) g''
 
-/-- **Option-tuple independence of folding.**  Whatever subset of foldable nodes the gate
-cascade (`input_size_limit`, `output_size_limit`, always-fold exception, blacklist,
-`should_fold`) lets through, the result computes exactly what the original computes. -/
+/-- **Soundness of the abstract relation `FoldSteps`** (not of `foldGraph`).  `FoldSteps` is the inductive closure of the
+single step "remove one bodiless, non-`Constant`, SINGLE-OUTPUT node (`hout`) whose inputs are constant in every reached
+environment (`hconst`), register the value the semantics gives for it (`href`) as a fresh initializer (`hfresh`)".  Any chain
+of such steps leaves `evalGraph` equal.  Because the relation does not mention size limits, blacklist or `should_fold`, whichever
+subset of such steps a gate cascade selects is covered — but that `foldGraph` performs only such steps is proved only on the
+fragments below (`fold_generic_fragment_preserves`, `fold_fragmentA_preserves`). -/
 theorem fold_preserves (sem : Sem V) (d : Nat) (outer : Env V) (args : List (Option V)) (g g' : Graph)
     (h : FoldSteps sem d outer args g g') :
     evalGraph sem (d + 1) outer g' args = evalGraph sem (d + 1) outer g args := by
@@ -273,10 +276,12 @@ theorem iterate_refines (sem : Sem V) (d : Nat) (P : IrPasses) (C : PassContract
     · exact iterStep_refines sem d P C fold hfold g
     · exact Refines.trans (iterStep_refines sem d P C fold hfold g) (iterate_refines sem d P C fold hfold early k _)
 
-/-- **The pipeline preserves meaning** for every option tuple: any `num_iterations`,
-`stop_if_no_change`, `inline`; the folding pass is any function that refines (for the modelled
-steps that is `fold_preserves`/the evaluator lemmas; size limits and `should_fold` only select
-among sound steps), the other passes satisfy their contracts. -/
+/-- **Conditional (contract) theorem — `_partial` in the sense of BUILDING.md, the name is historical.**  IF all nine
+non-fold passes satisfy `PassContracts` (an assumption: eight of them live in onnx_ir, the rewrite rules belong to C05/C07)
+AND the folding pass refines on EVERY graph (`hfold`; no theorem of this file discharges `hfold` for `foldGraph` — the
+end-to-end fold theorems hold on fragment A only and under semantic hypotheses), THEN `optimizeIr` refines for every option
+tuple (`num_iterations`, `stop_if_no_change`, `inline`).  The content is the composition structure of `optimize_ir`
+(iteration, early exit, order of passes), nothing more. -/
 theorem pipeline_preserves (sem : Sem V) (d : Nat) (P : IrPasses) (C : PassContracts sem d P)
     (fold : Graph → Graph × Bool) (hfold : ∀ g, Refines sem d (fold g).1 g) (o : OptOpts) (g : Graph) :
     Refines sem d (optimizeIr P fold o g) g := by
@@ -296,8 +301,9 @@ theorem pipeline_preserves (sem : Sem V) (d : Nat) (P : IrPasses) (C : PassContr
 
 /-! ### the `dce` slot of the pipeline: `RemoveUnusedNodesPass` as a modelled function -/
 
-/-- **`RemoveUnusedNodesPass` preserves meaning** (discharges the `dce` contract of `PassContracts` by a model instead of an
-assumption, on bodiless graphs).  `dcePass` (OV/Model/C03Dce.lean) restates onnx_ir's pass: reverse sweep, removal of nodes
+/-- **`RemoveUnusedNodesPass` preserves meaning — FRAGMENT theorem** (bodiless graphs of `dceFragB` only, under the operator law
+`TrailingNoneLaw`; it discharges the `dce` contract of `PassContractsOn (dceFragB · = true)`, not of the absolute
+`PassContracts`, and says nothing about kept nodes with bodies).  `dcePass` (OV/Model/C03Dce.lean) restates onnx_ir's pass: reverse sweep, removal of nodes
 none of whose outputs is used or a graph output, trimming of trailing absent inputs, renaming/dropping of unused optional
 outputs according to the operator schema (any schema table `ctx`), the `BatchNormalization` branch, removal of unused
 initializers.  For every graph in the decidable fragment `dceFragB` (bodiless nodes, definition before use, no node reads its
@@ -311,9 +317,8 @@ theorem dce_refines (sem : Sem V) (hT : TrailingNoneLaw sem) (ctx : DceCtx) (has
   | zero => simp [evalGraph] at hev
   | succ d => exact dcePass_sound sem hT ctx hasOpset g hwf d outer args vs hev
 
-/-- `PassResult.modified` of the modelled pass is `count ≠ 0`, and an unmodified result on the fragment is the input itself
-up to trimming: in particular when nothing was removed the node list has the same length. (The early exit of
-`optimize_ir` reads this flag.) -/
+/-- Minor lemma (not a headline result): on a bodiless node list, `count = 0` implies that the sweep kept every node (same
+length; nodes may still have been trimmed).  `PassResult.modified` of the modelled pass is `count ≠ 0`. -/
 theorem dce_unmodified_keeps_every_node (ctx : DceCtx) (sub : Graph → DceOut × Graph) (ho : Bool) (outs : List Name) :
     ∀ (ns : List Node), (∀ n ∈ ns, n.subs = []) → (dceNodes ctx sub ho outs ns).count = 0 →
       (dceNodes ctx sub ho outs ns).nodes.length = ns.length
@@ -371,8 +376,9 @@ theorem iterate_refines_on (Dom : Graph → Prop) (sem : Sem V) (d : Nat) (P : I
     · have ih := iterate_refines_on Dom sem d P C fold hfold early k _ hstep.1
       exact ⟨ih.1, Refines.trans hstep.2 ih.2⟩
 
-/-- **The pipeline preserves meaning on a class of graphs closed under its passes** — the form of `pipeline_preserves` into
-which a *modelled* pass with a delimited domain can be plugged. -/
+/-- **Conditional (contract) theorem**, relative form of `pipeline_preserves`: IF every non-fold pass (`PassContractsOn`) and
+the folding pass (`hfold`) map the class `Dom` into itself and refine on it, THEN so does `optimizeIr`.  All nine contracts and
+`hfold` are hypotheses; this is the form into which a *modelled* pass with a delimited domain can be plugged. -/
 theorem pipeline_preserves_on (Dom : Graph → Prop) (sem : Sem V) (d : Nat) (P : IrPasses) (C : PassContractsOn Dom sem d P)
     (fold : Graph → Graph × Bool) (hfold : ∀ g, Dom g → Dom (fold g).1 ∧ Refines sem d (fold g).1 g) (o : OptOpts)
     (g : Graph) (hg : Dom g) : Dom (optimizeIr P fold o g) ∧ Refines sem d (optimizeIr P fold o g) g := by
@@ -392,10 +398,12 @@ theorem pipeline_preserves_on (Dom : Graph → Prop) (sem : Sem V) (d : Nat) (P 
   exact ⟨h8.1, Refines.trans (Refines.trans (Refines.trans (Refines.trans (Refines.trans (Refines.trans (Refines.trans
     (Refines.trans h0.2 h1.2) h2.2) h3.2) h4.2) h5.2) h6.2) h7.2) h8.2⟩
 
-/-- **`optimize_ir` with the `dce` slot discharged by the model.**  When the remove-unused-nodes pass *is* the modelled
-`dcePass` (any schema table), no contract is assumed for it: on graphs of `dceFragB`, if the folding pass and the other seven
-passes keep the graph in the fragment and refine, the whole pipeline refines — for every option tuple.  (`dce` runs
-`num_iterations + 1` times; each run is covered by `dce_refines` and `dce_preserves_fragment`.) -/
+/-- **Conditional (contract) theorem with ONE of the nine contracts discharged.**  When the remove-unused-nodes pass *is* the
+modelled `dcePass` (any schema table), no contract is assumed for it (`dce_refines` + `dce_preserves_fragment`; it runs
+`num_iterations + 1` times).  STILL ASSUMED: `hpass` — the other eight passes keep the graph in `dceFragB` and refine — and
+`hfold` — the folding pass keeps the graph in `dceFragB` and refines (closure of `dceFragB` under `foldGraph` is NOT proved).
+The only instance exhibited (`idPassesDce`) uses identity passes and an identity fold: it shows the hypotheses are consistent,
+not that the real passes satisfy them. -/
 theorem pipeline_preserves_dce_modelled (sem : Sem V) (hT : TrailingNoneLaw sem) (d : Nat) (ctx : DceCtx) (hasOpset : Bool)
     (P : IrPasses) (hdce : P.dce = dceSlot ctx hasOpset)
     (hpass : ∀ f ∈ [P.inline, fun g => (P.rewrite g).1, P.liftConstants, P.liftSubgraphInits, P.dedup, P.cse, P.outputFix, P.nameFix],
@@ -475,7 +483,9 @@ example : Refines firstSem 1 (optimizeIr idPassesDce (fun g => (g, false)) { num
       rcases hf with e | e | e | e | e | e | e | e <;> subst e <;> exact ⟨hg, Refines.refl _ _ _⟩)
     (fun g => (g, false)) (fun g hg => ⟨hg, Refines.refl _ _ _⟩) _ gDce (by decide)
 
-/-- **C03-D4 (refuted full statement).**  Without the `BatchNormalization` clause of `dceFragB`, `dce_refines` is false: the
+/-- **C03-D4 (refuted).**  What is negated is the UNRESTRICTED universal (every graph, no `dceFragB` hypothesis at all) — stronger
+than `dce_refines` minus one clause; the link to the finding is the witness `gBn`, which (example below) violates only the
+`training_mode` clause of `dceFragB`.  Without the `BatchNormalization` clause of `dceFragB`, `dce_refines` is false: the
 pass pops `training_mode` when the running outputs are unused, and a semantics in which `training_mode` matters (the ONNX
 specification: batch statistics instead of the running ones) distinguishes the two graphs.  Replayed on the real code by
 `harness/c03_dce.py` (family `dce_bn_training_unused`). -/
@@ -1037,8 +1047,8 @@ example (outer : Env Nat) (args : List (Option Nat)) (vs : List Nat)
 
 /-! ### reference attributes (function bodies) -/
 
-/-- `_get_int_attribute` on a reference attribute: the attribute is present, its value is not an int,
-the answer is `None` — never the operator's default. -/
+/-- (One-guard unfolding of the model, pins a branch; not a headline result.)  `_get_int_attribute` on a reference
+attribute: the attribute is present, its value is not an int, the answer is `None` — never the operator's default. -/
 theorem intAttr_ref (n : Node) (k r : String) (dflt : Option Int)
     (h : (n.attrs.find? (·.1 == k)).map (·.2) = some (Attr.ref r)) : intAttr n k dflt = none := by
   unfold intAttr Node.attr
@@ -1066,7 +1076,8 @@ def isRepl : PRes → Bool
   | .repl _ _ => true
   | _ => false
 
-/-- **Nodes with a reference attribute are left alone** (commit 1825327): for every option tuple and
+/-- (One-guard unfolding of `processNode`: pins the guard added by commit 1825327; not a semantic theorem.)
+**Nodes with a reference attribute are left alone**: for every option tuple and
 state, `process_node` keeps a node that carries an attribute reference after the input
 substitution — no partial evaluator and no generic folding can specialise a function body to one
 call site's (or the operator's default) attribute value. -/
@@ -1104,7 +1115,7 @@ theorem reference_attribute_witness_kept :
     isRepl (processNode ctxRef stRef nRef).1 = false ∧ isRepl (gateCascade ctxRef stRef nRef 18).1 = true := by
   decide
 
-/-- Regression witness of C03-D3 (fixed by 9d7b9e7): below opset 13 the reference evaluator has no answer for
+/-- (One-guard unfolding of `oracleAnswer`; not a headline result.)  Regression witness of C03-D3 (fixed by 9d7b9e7): below opset 13 the reference evaluator has no answer for
 Softmax / LogSoftmax / Hardmax, whatever the oracle table says; from opset 13 on the table is consulted. -/
 theorem softmax_family_not_evaluated_below_13 (ctx : Ctx) (st : St) (n : Node) (v : Nat)
     (hd : n.domain = "") (hv : v < 13) (hop : n.op = "Softmax" ∨ n.op = "LogSoftmax" ∨ n.op = "Hardmax") :
@@ -1374,7 +1385,11 @@ def IgnoresKeepdims (sem : Sem Nat) : Prop :=
 
 def IdentityLaw (sem : Sem Nat) : Prop := ∀ a (v : Nat), sem.op "Identity" "" a [some v] = some [v]
 
-/-- **C03-D1.**  "The folding pass as modelled preserves the meaning of every graph under every
+/-- **C03-D1.**  What is negated is the UNRESTRICTED universal (every graph, every annotation table, no well-formedness,
+oracle or annotation hypothesis) — a statement stronger than any positive theorem of this file; the negation alone says
+little.  What ties it to the finding is the witness `gK`/`infoK`/`ctxK` (a well-formed 3-node graph with truthful
+annotations), on which the model of the pass produces what the real code produces.
+"The folding pass as modelled preserves the meaning of every graph under every
 semantics that obeys the operator specification" is false: under `rankSem` (which ignores
 `keepdims` when `split` is given, as the specification and onnxruntime do) the original returns a
 rank-2 tensor, the folded graph — `Split`, three `Squeeze`, `SequenceConstruct`, `Identity` — a rank-1
